@@ -3,7 +3,7 @@ use crate::enc;
 use crate::gen;
 use crate::guarded;
 use crate::rng::Rng;
-use proguard::ProguardRecord;
+use proguard::{ProguardMapping, ProguardRecord};
 use serde_json::{json, Value};
 use std::io::{BufWriter, Write};
 
@@ -76,6 +76,7 @@ pub fn run(kind: &str, args: &[String]) -> i32 {
     let mut sink = Sink::new(out);
     match kind {
         "syntax" => syntax(&mut sink, &opts),
+        "stream" => stream(&mut sink, &opts),
         _ => {
             eprintln!("unknown trace kind {kind}");
             return 2;
@@ -136,5 +137,82 @@ fn syntax(sink: &mut Sink, o: &Opts) {
         let got = guarded(|| enc::record(&ProguardRecord::try_parse(&line)));
         let got = got.unwrap_or_else(|p| json!({"k": "panic", "msg": p}));
         sink.emit(json!({"line": enc::bytes(&line), "got": got}));
+    }
+}
+
+fn opt_value(o: &Opts, key: &str) -> Option<String> {
+    o.rest.iter().position(|a| a == key).and_then(|i| o.rest.get(i + 1).cloned())
+}
+
+/// all items of a byte string, as the real iterator yields them (a panic becomes an item)
+pub fn items_of(src: &[u8]) -> Value {
+    let src2 = src.to_vec();
+    match guarded(move || {
+        let mut out = vec![];
+        // the iterator must terminate: at most one item per byte is the law, so stop at len+2
+        let mut left = src2.len() + 2;
+        for r in ProguardMapping::new(&src2).iter() {
+            out.push(enc::record(&r));
+            left -= 1;
+            if left == 0 {
+                out.push(json!({"k": "runaway"}));
+                break;
+            }
+        }
+        out
+    }) {
+        Ok(v) => Value::Array(v),
+        Err(p) => json!([{"k": "panic", "msg": p}]),
+    }
+}
+
+fn stream_event(src: &[u8], splits: &[usize]) -> Value {
+    let sp: Vec<Value> = splits
+        .iter()
+        .map(|k| json!({"k": k, "a": items_of(&src[..k - 1]), "b": items_of(&src[*k..])}))
+        .collect();
+    json!({"src": enc::bytes(src), "items": items_of(src), "splits": sp})
+}
+
+/// C06: what iter() yields for whole strings and for both sides of line-feed split points
+fn stream(sink: &mut Sink, o: &Opts) {
+    let mut rng = Rng::new(o.seed);
+    if let Some(cases) = opt_value(o, "--cases") {
+        for line in std::fs::read_to_string(cases).unwrap().lines() {
+            if line.trim().is_empty() {
+                continue;
+            }
+            let c: Value = serde_json::from_str(line).unwrap();
+            let src = enc::from_bytes(&c["src"]);
+            let splits: Vec<usize> = c["splits"].as_array().unwrap().iter().map(|x| x.as_u64().unwrap() as usize).collect();
+            sink.emit(stream_event(&src, &splits));
+        }
+    }
+    for _ in 0..o.n {
+        let src = gen::byte_soup(&mut rng);
+        let mut splits: Vec<usize> = src.iter().enumerate().filter(|(_, b)| **b == b'\n').map(|(i, _)| i + 1).collect();
+        while splits.len() > 4 {
+            let i = rng.below(splits.len());
+            splits.remove(i);
+        }
+        sink.emit(stream_event(&src, &splits));
+    }
+    for f in &o.files {
+        let src = std::fs::read(f).expect("corpus file");
+        for variant in 0..3 {
+            let v: Vec<u8> = match variant {
+                0 => src.clone(),
+                1 => String::from_utf8_lossy(&src).replace('\n', "\r\n").into_bytes(),
+                _ => gen::mutate_file(&mut rng, &src),
+            };
+            let lf: Vec<usize> = v.iter().enumerate().filter(|(_, b)| **b == b'\n').map(|(i, _)| i + 1).collect();
+            let mut splits = vec![];
+            for _ in 0..3.min(lf.len()) {
+                splits.push(rng.pick(&lf));
+            }
+            splits.sort();
+            splits.dedup();
+            sink.emit(stream_event(&v, &splits));
+        }
     }
 }
